@@ -28,7 +28,7 @@ Definition dec_decl (s : sexp) : decl :=
   match as_Z (nth_s 0 s) with
   | 0 => let fl := as_Z (nth_s 1 s) in
          DSig (Z.eqb fl 1 || Z.eqb fl 3 || Z.eqb fl 4) (as_Z (nth_s 2 s))
-  | 1 => DMemo (if Z.eqb (as_Z (nth_s 1 s)) 0 then CNe else CAlways)
+  | 1 => DMemo (match as_Z (nth_s 1 s) with 0 => CNe | 2 => CPar | _ => CAlways end)
                (dec_expr EXPR_DEPTH (nth_s 3 s))
   | 2 => DDer (dec_expr EXPR_DEPTH (nth_s 2 s))
   | _ => let k := match as_Z (nth_s 1 s) with
